@@ -184,8 +184,9 @@ class Run:
             "coverage": cov, "assumptions": self.assumptions, "wall_s": round(wall, 3),
             "violations": len(self.violations),
         }
-        os.makedirs(os.path.join(VERIF, "evidence"), exist_ok=True)
-        with open(os.path.join(VERIF, "evidence", f"{self.prop_id}.json"), "w") as f:
+        evdir = os.environ.get("VERIF_EVIDENCE_DIR") or os.path.join(VERIF, "evidence")
+        os.makedirs(evdir, exist_ok=True)
+        with open(os.path.join(evdir, f"{self.prop_id}.json"), "w") as f:
             json.dump(ev, f, indent=1, default=str)
         try:
             import jsonschema
